@@ -13,9 +13,12 @@ vars == <<l>>
 Bad(r) ==
   \* (op "gclive": the collector as the tool drives it; reported = how a source still reports the checkpoint's
   \*  replication id - as its current id, as its previous id, or not at all: only then may the position go)
-  LET had == r.before.rid # "?" /\ r.before.off >= 0 /\ r.reported # "gone" IN
-  IF ~had THEN {}
-  ELSE (IF r.after.rid = "?" \/ r.after.off < 0 THEN {"C17_ResumePositionLost"} ELSE {})
+  LET had == r.before.rid # "?" /\ r.before.off >= 0 /\ r.reported # "gone"
+      \* another input that keeps its position under the same key has nothing to do with this input's maintenance
+      other == IF r.op \in {"rename", "failover", "both"} /\ r.otherBefore.off >= 0 /\ r.otherAfter # r.otherBefore
+               THEN {"C17_OtherInputPositionLost"} ELSE {} IN
+  IF ~had THEN other
+  ELSE other \cup (IF r.after.rid = "?" \/ r.after.off < 0 THEN {"C17_ResumePositionLost"} ELSE {})
        \cup (IF r.after.rid # "?" /\ r.after.off >= 0 /\ r.after.off < r.before.off THEN {"C17_ResumePositionWentBack"} ELSE {})
        \cup (IF r.after.rid # "?" /\ r.after.off >= r.before.off /\ r.after.db # r.before.db THEN {"C17_ResumeDatabaseChanged"} ELSE {})
        \* the replay went on and stored a later position (wrote), then started once more (later): what the interrupted
